@@ -1605,6 +1605,22 @@ func injectorTemplateForms() []*Program {
 		p.Extra["0/zz_driver.go"] = drvHdr + "func Scenarios() {\n\t_ = Init(1, \"s\")\n}\n"
 		progs = append(progs, p)
 	}
+	// comments that read like build constraints: gofmt hoists such lines to the top of the
+	// generated file, where they would replace or extend the generated "!wireinject"
+	for _, v := range []struct{ id, note, wire string }{
+		{"doc-comment-plus-build-line", "injector doc comment containing a // +build line",
+			"// Init builds a Svc. The experimental backend used to need\n// +build experimental\nfunc Init() *Svc {\n\tpanic(wire.Build(NewSvc))\n}\n"},
+		{"copied-doc-comment-plus-build-line", "doc comment of a copied declaration ending in a // +build line",
+			"func Init() *Svc {\n\tpanic(wire.Build(NewSvc))\n}\n\n// helper is only needed on old 32-bit boxes, which used to say\n// +build linux,386\nfunc helper() int { return 1 }\n"},
+		{"copied-field-comment-plus-build-line", "field comment of a copied type that reads // +build experimental",
+			"func Init() *Svc {\n\tpanic(wire.Build(NewSvc))\n}\n\ntype options struct {\n\t// +build experimental\n\tFast bool\n}\n"},
+	} {
+		p := mk(v.id, v.note, true)
+		p.Extra["0/decl.go"] = "package app\n\ntype Svc struct{ N int }\n\nfunc NewSvc() *Svc { return &Svc{N: 1} }\n"
+		p.Extra["0/wire.go"] = hdr + "import \"github.com/google/wire\"\n\n" + v.wire
+		p.Extra["0/zz_driver.go"] = drvHdr + "func Scenarios() {\n\t_ = Init()\n}\n"
+		progs = append(progs, p)
+	}
 	// aliases in the injector's own signature: the template compiles, so must the implementation
 	// (wire sees the aliased type only; where that type cannot be written in the injector's
 	// package a refusal is the one correct alternative to an implementation)
